@@ -19,6 +19,7 @@
    a miss is a known-finding class only if fee, gas and size are exactly the as-coded machine's. *)
 EXTENDS Integers, Sequences, TLC
 CONSTANTS MaxBatch,       \* contents per group
+          BigBatches,     \* sizes of additional large batches of plain transfers
           Kinds,          \* subset of {"transaction", "transaction_kt", "reveal", "delegation", "origination"}
           KeyKinds,       \* subset of {"tz1", "tz2", "tz3", "tz4"}
           Modes,          \* subset of {"fill", "autofill"}
@@ -43,6 +44,7 @@ N == Len(kinds)
 RECURSIVE SeqsUpTo(_, _)
 SeqsUpTo(S, n) == IF n = 0 THEN {<<>>} ELSE LET r == SeqsUpTo(S, n - 1) IN r \cup {Append(s, x) : s \in {t \in r : Len(t) = n - 1}, x \in S}
 Batches == {b \in SeqsUpTo(Kinds, MaxBatch) : b # <<>>}
+           \cup {[k \in 1..n |-> "transaction"] : n \in BigBatches}      \* large uniform batches (per-content rounding must stay covered)
 
 \* ---- sizes (binary schema of manager operations) ----
 PkLen(kk) == CASE kk = "tz1" -> 32 [] kk = "tz2" -> 33 [] kk = "tz3" -> 33 [] kk = "tz4" -> 48
@@ -71,7 +73,8 @@ DefStorage(kind, hard) ==
 \* calculate_fee(content, consumed_gas, extra_size, reserve = 10): the content still carries fee 0
 CalcFee(c, j, kk, gas, extra) == 100 + (ContentSize([c EXCEPT !.fee = 0], j, kk) + extra) + ((100 * gas) \div 1000) + 10
 \* default_fee(content): gas = default_gas_limit(content) with the DEFAULT constants, extra = 32 + 64 + 3 * 3
-DefaultFee(c, j, kk) == CalcFee(c, j, kk, DefGas(c.kind, kk, DefaultHardGas), 32 + 64 + 9)
+\* default_fee(content, gas_limit of the content, signature size of the key) - as repaired: every content is priced with its own limit
+DefaultFee(c, j, kk) == CalcFee(c, j, kk, c.gas, 32 + SigLen(kk) + 9)
 
 ----------------------------------------------------------------------------
 Init == /\ pc = "fill" /\ keyKind \in KeyKinds /\ mode \in Modes /\ kinds \in Batches /\ chain \in Chains
@@ -88,7 +91,7 @@ FillStep ==
          c0 == [kind |-> kind, fee |-> 0, counter |-> chain + i,
                 gas |-> Min(NodeHardGas \div N, DefGas(kind, keyKind, NodeHardGas)),
                 storage |-> Min(NodeHardStorage \div N, DefStorage(kind, NodeHardStorage))]
-         c == [c0 EXCEPT !.fee = IF i = 1 THEN DefaultFee(c0, i, keyKind) ELSE 0] IN
+         c == [c0 EXCEPT !.fee = DefaultFee(c0, i, keyKind)] IN
      /\ cont' = Append(cont, c)
      /\ i' = IF i = N THEN 1 ELSE i + 1
      /\ pc' = IF i < N THEN "fill" ELSE IF mode = "fill" THEN "sign" ELSE "auto"
@@ -104,7 +107,7 @@ AutoStep ==
          sto == s[2] + (IF s[3] THEN 257 ELSE 0) + reserve
          c == [cont[i] EXCEPT !.gas = gas, !.storage = sto, !.fee = 0] IN
      /\ cont' = [cont EXCEPT ![i] = c]
-     /\ feeAcc' = feeAcc + CalcFee(c, i, keyKind, gas, 1 + (96 \div N))
+     /\ feeAcc' = feeAcc + CalcFee(c, i, keyKind, gas, 1 + ((32 + SigLen(keyKind)) \div N))
      /\ i' = IF i = N THEN 1 ELSE i + 1
      /\ pc' = IF i < N THEN "auto" ELSE "place"
   /\ UNCHANGED <<keyKind, mode, kinds, simIx, chain, out>>
